@@ -170,6 +170,14 @@ class PhaseField(_Simu):
         else:
             raise ValueError("problem error")
 
+    @_Simu.mesh.setter  # type: ignore [attr-defined]
+    def mesh(self, mesh) -> None:
+        _Simu.mesh.fset(self, mesh)  # type: ignore [attr-defined]
+        if self.mesh is mesh:
+            # the history field lives on the Gauss points of the mesh it was computed on
+            self.__psiP_e_pg = np.empty(0, dtype=float)
+            self.__old_psiP_e_pg = np.empty(0, dtype=float)
+
     @property
     def phaseFieldModel(self) -> Models.PhaseField:
         """damage model"""
